@@ -99,7 +99,7 @@ def run_cond(shard, ctx):
     tier, seed = shard["tier"], shard["seed"]
     kind, Rc, Rx, Dx, Dy = (shard[k] for k in ("kind", "Rc", "Rx", "Dx", "Dy"))
     R = Rc * Rx
-    vis = _affine.value_indices(tier) + (["M0"] if kind in ("full", "diag", "nncontrol") else [])
+    vis = _affine.value_indices(tier, shard) + (["M0"] if kind in ("full", "diag", "nncontrol") else [])
     for vi, ctor in [(v, c) for v in vis for c in _affine.ctors_for(kind)]:
         if ctor != "Sigma" and vi != 0:
             continue
